@@ -118,4 +118,13 @@ PROPS['C16'] = {
     'assumptions': ['all job buffers and key objects are inside the shared arena (as the property requires: mapped at the same addresses)'],
 }
 
+PROPS['C06'] = {
+    'level': 'exploration',
+    'technique': 'exhaustive enumeration of the full finite suite product (cipher mode x key size x direction x hash x chain order) on the real library, job and burst API, against documented acceptance rules and the reference of the named algorithms',
+    'level_text': 'The complete product cipher_mode (0..NUM) x key length {8,16,24,32} x direction x hash_alg (0..NUM) x chain order (about 24 000 cells) is executed on all 7 variants through the job API and the asynchronous burst API: acceptance must equal the documented key-size / AEAD-pairing / chain-order rules, accepted cells must produce the named cipher (with the named key size) and the named hash over the range as it stands when the hash stage runs, CUSTOM stages run exactly once in the requested order, equal session fields give equal suite ids, and the burst API agrees with the job API.',
+    'level_note': 'One message length (96 bytes) and one parameter set per cell; acceptance rules are restated from intel-ipsec-mb.h / README and were calibrated against the pinned tree (differences are listed as findings, not absorbed).',
+    'drivers': [{'name': 'c06', 'src': ['props/c06.c'] + ALG, 'cfgs': ['std'], 'args': ''}],
+    'assumptions': ['the finite product is complete: enums are iterated from 0 to *_NUM inclusive'],
+}
+
 NOT_APPLICABLE = {}
